@@ -11,11 +11,13 @@ inductive Call
   | verifyKey       -- `_verify_key` that compares the key VALUE (paramiko, ssh2)
   | verifyPresent   -- `_verify_key` that only checks the host is PRESENT in known_hosts (asyncssh)
   | verifyValue     -- asyncssh `_verify_key_value` (compares the value, needs the connection)
-  | connect (pin fallback : Bool)
+  | connect (pin fallback overridable : Bool)
       -- `asyncssh.connect(**conn_args)`: key exchange AND authentication in one call;
       -- pin = when strict, `known_hosts=` carries the key expected for the host;
       -- fallback = the method that loads that key has a path that does NOT raise when the key cannot be
-      --   loaded (returns nothing): connect() is then called with `known_hosts=None` after all
+      --   loaded (returns nothing): connect() is then called with `known_hosts=None` after all;
+      -- overridable = between the pin and connect() the user's `transport_options["asyncssh"]` are merged into the
+      --   same arguments (`.update(...)`), so an option `known_hosts: None` takes the pin away again
   | authenticate    -- paramiko / ssh2 `_authenticate()` followed by the `is_authenticated` check
   | openChannel     -- `_open_channel()` / `session.open_session(...)`
 deriving DecidableEq, Repr
